@@ -111,6 +111,10 @@ def prefix_oracle(ops, lines, known=None):
                 if not pkeys:
                     continue      # nothing of the burst arrived: the cut may lie before it (a pause does not make the writer catch up under load); membership in the model's prefix set is checked by the comparison
             if set(got) != set(want) or any(got[k][:2] != want[k][:2] for k in got):
+                if len(got) + len(want) > 40:
+                    miss = sorted(k for k in want if k not in got)[:10]; extra = sorted(k for k in got if k not in want)[:10]
+                    diff = sorted(k for k in want if k in got and got[k] != want[k])[:10]
+                    return (i + 1, f"recovered after {how}: {len(got)} keys, held before (registrations applied): {len(want)} keys; lost: {miss}, not held before: {extra}, different value/kind/version: {diff}")
                 return (i + 1, f"recovered after {how}: {got}; held before (registrations applied): {want}")
             vdiff = [k for k in got if got[k][0] == "C" and got[k][2] != want[k][2]]
             if vdiff:
@@ -134,6 +138,17 @@ def run(v, tier, seed):
     f28lw = ["node ReDB", "conn 1", "conn 2", f"set 2 {xs('m')} {js(1)}", f"set 1 {xs(lw(1))} {js([{'key': 'w', 'value': 'bye'}])}", f"del 1 {xs(lw(1))}",
              f"set 2 {xs('n')} {js(1)}", "settle", "dump leader", "kill", "start", "dump leader"]
     cases += [("F28-withdrawn-grave-goods", f28), ("F28-withdrawn-last-will", f28lw)]
+    # long bursts: the writer wakes up with hundreds of changes queued (its channel holds 1000) and folds them into one
+    # transaction; after a clean stop every one of them must be there, after a kill a gap-free prefix
+    rb = random.Random(seed * 49979687)
+    for i in range(2 if tier == "quick" else 12):
+        nb = rb.randint(1500, 3000)
+        cases.append((f"big{i}", ["node ReDB", "conn 1", f"set 1 {xs('a/b')} {js(1)}", "conn 2", f"burst 2 {nb} {xs('p')} 0", f"set 2 {xs('z')} {js(1)}",
+                                   f"del 1 {xs('a/b')}", "settle", "dump leader", "stop", "start", "dump leader"]))
+    for i in range(1 if tier == "quick" else 12):
+        nb = rb.randint(300, 600)          # (the model recovers every prefix: quadratic)
+        cases.append((f"bigkill{i}", ["node ReDB", "conn 1", f"set 1 {xs('a/b')} {js(1)}", "settle", "dump leader", "conn 2",
+                                       f"burst 2 {nb} {xs('p')} {rb.choice([1000, 3000, 6000, 10000, 20000, 40000])}", "kill", "start", "dump leader"]))
     cases += [(f"r{i}", gen_case(seed * 67867967 + i)) for i in range(n)]
     cpath = os.path.join(work, "cases.txt")
     write_cases(cpath, cases)
@@ -183,5 +198,5 @@ def run(v, tier, seed):
     samples = [{"case": nm, "ops": [decode_tok(o) for o in ops], "observed": [decode_tok(l)[:300] for l in A.get(nm, [])]} for nm, ops in cases if nm in nontrivial][:2] or \
               [{"case": cases[0][0], "ops": [decode_tok(o) for o in cases[0][1]], "observed": [decode_tok(l)[:300] for l in A.get(cases[0][0], [])]}]
     v.cov.update({"evaluations": len(cases), "distinct_nontrivial": len(nontrivial), "steps": nsteps, "disagreements": len(diffs), "kills": kills, "samples": samples, "clean_restarts": stops, "cuts_observed(recovered of burst)": cuts[:40],
-                  "rule": f"a standalone server (child process of the freshly built binary, WORTERBUCH_PERSISTENCE_MODE=ReDB) driven over TCP: {n} random histories of set / cset / delete / pdelete, registration and re-registration of grave goods and last wills, session ends, clean stop-and-start cycles; at the end either a clean stop, or a burst of 1..40 sets sent back to back followed 0..3 ms later by SIGKILL; then a start on the same database file and a dump (REST export); the recovered state must be one of the states the model allows -- recover(apply(prefix j of the queued actions)) for some j -- and, independently, the quiescent state with its registrations applied plus a gap-free prefix of the burst; non-trivial = the kill fell inside the burst (0 < recovered < sent)",
+                  "rule": f"a standalone server (child process of the freshly built binary, WORTERBUCH_PERSISTENCE_MODE=ReDB) driven over TCP: {n} random histories of set / cset / delete / pdelete, registration and re-registration of grave goods and last wills, session ends, clean stop-and-start cycles; at the end either a clean stop, or a burst of 1..40 sets sent back to back followed 0..3 ms later by SIGKILL; plus long bursts (the writer wakes up with hundreds of queued changes) of 1500..3000 sets followed by a clean stop, resp. of 300..600 sets followed by SIGKILL 1..40 ms later; then a start on the same database file and a dump (REST export); the recovered state must be one of the states the model allows -- recover(apply(prefix j of the queued actions)) for some j -- and, independently, the quiescent state with its registrations applied plus a gap-free prefix of the burst; non-trivial = the kill fell inside the burst (0 < recovered < sent)",
                   "not_covered": "where the kill lands relative to the writer is decided by the scheduler: the theorem covers every cut, the check observes the ones that occur (see cuts_observed); redb's own atomic commit is trusted; the v1->v2 table migration; the SQLite and Turso backends"})
